@@ -1,6 +1,7 @@
 import CkcVerif.Lemmas.HandValue
 import CkcVerif.Lemmas.Ranking
 import CkcVerif.Lemmas.FindCorrect
+import CkcVerif.Lemmas.SpecCensus
 import CkcVerif.Model.SixSeven
 /-!
 # C01 — the five-card rank value is the hand's exact poker strength ordinal
@@ -156,6 +157,23 @@ theorem C01_search_correct (i : Nat) (hi : i < 4888) :
     notUniqueKey packed (get 32 Gen.productsP i) = packed.values i :=
   ⟨findInProducts_found i hi, (notUniqueKey_spec _).1 i hi rfl⟩
 
+/-- the specification the values are measured against reproduces the textbook census of poker hands:
+    per category (high card … straight flush) 1,277 / 2,860 / 858 / 858 / 10 / 1,277 / 156 / 156 / 10 classes
+    and 1,302,540 / 1,098,240 / 123,552 / 54,912 / 10,200 / 5,108 / 3,744 / 624 / 40 hands; 7,462 classes and
+    C(52,5) = 2,598,960 hands in all (independent of the crate) -/
+theorem C01_spec_census : census =
+    [(1277, 1302540), (2860, 1098240), (858, 123552), (858, 54912), (10, 10200), (1277, 5108),
+     (156, 3744), (156, 624), (10, 40)] ∧
+    (census.map (·.1)).foldl (· + ·) 0 = 7462 ∧ (census.map (·.2)).foldl (· + ·) 0 = 2598960 := census_ok
+
+/-- two hands tie only if they have the same ranks and the same flush-ness: strength determines the class -/
+theorem C01_strength_determines_class {r1 r2 r3 r4 r5 : Nat} {f : Bool} {q1 q2 q3 q4 q5 : Nat} {g : Bool}
+    (hc : Feasible r1 r2 r3 r4 r5 f) (hd : Feasible q1 q2 q3 q4 q5 g)
+    (h : strength [r1, r2, r3, r4, r5] f = strength [q1, q2, q3, q4, q5] g) :
+    r1 = q1 ∧ r2 = q2 ∧ r3 = q3 ∧ r4 = q4 ∧ r5 = q5 ∧ f = g := by
+  rw [strength_eq_key hc, strength_eq_key hd] at h
+  exact key_injective hc hd h
+
 /-- non-vacuity: the hypotheses are met by 7♣ 5♦ 4♥ 3♠ 2♠ -/
 example : IsHand 5 [⟨5, 0⟩, ⟨3, 1⟩, ⟨2, 2⟩, ⟨1, 3⟩, ⟨0, 3⟩] := ⟨rfl, by decide, by decide⟩
 
@@ -171,3 +189,5 @@ end C01
 #print axioms C01.C01_ranking_exact
 #print axioms C01.C01_count_stronger
 #print axioms C01.C01_search_correct
+#print axioms C01.C01_spec_census
+#print axioms C01.C01_strength_determines_class
